@@ -230,47 +230,58 @@ deriving Repr, Inhabited
 def scalarSlots : List Str :=
   ["type", "name", "trigger", "parameters", "disabled", "default", "choice_filter"].map String.toList
 
-/-- one cell through `process_row` (sheet_headers.py 164-180) -/
+/-- a one-token column: `out_row[token] = val` -/
+def stepScalar (r0 : PRow) (k v : Str) : Except String PRow :=
+  let r := if k = "disabled".toList then r0 else { r0 with keys := r0.keys + 1 }
+  if k = "type".toList then .ok { r with type := some v }
+  else if k = "name".toList then .ok { r with name := some v }
+  else if k = "trigger".toList then .ok { r with trigger := some v }
+  else if k = "parameters".toList then .ok { r with parameters := some v }
+  else if k = "disabled".toList then .ok { r with disabled := some v }
+  else if k = "default".toList then .ok { r with default_ := some v }
+  else if k = "choice_filter".toList then .ok { r with choiceFilter := true }
+  else if k = "label".toList then .ok { r with hasLabel := true }
+  else if k = "bind".toList || k = "control".toList then .error "plain bind/control column (F14 class)"
+  else .ok r
+
+/-- a `bind` column: `merge_dicts(out_row, {"bind": {attr: val}})` / `{attr: {lang: val}}` -/
+def stepBindCell (dl : Str) (r : PRow) (a : Str) (rest : List Str) (v : Str) : Except String PRow :=
+  let nv : Option BVal := match rest with
+    | [] => some (.s v)
+    | [l] => some (.d [(l, v)])
+    | _ => none
+  match nv with
+  | none => .error "bind cell nested deeper than bind::attr::lang"
+  | some nv =>
+    match setBind dl (r.bind.getD []) a nv with
+    | none => .error "bind leaf collision"
+    | some b => .ok { r with bind := some b, keys := r.keys + 1 }
+
+/-- any other grouped column -/
+def stepOther (r0 : PRow) (k a : Str) (rest : List Str) (v : Str) : Except String PRow :=
+  let r := { r0 with keys := r0.keys + 1 }
+  if k = "control".toList then
+    if !rest.isEmpty then .error "nested control cell"
+    else if a = "jr:count".toList then .ok { r with count := some v }
+    else if a = "appearance".toList then .ok { r with appearance := some v }
+    else .ok r
+  else if scalarSlots.contains k then .error "grouped header on a scalar column (F14 class)"
+  else if k = "label".toList then .ok { r with hasLabel := true }
+  else .ok r
+
+def stepTokens (dl : Str) (r : PRow) (v : Str) : List Str → Except String PRow
+  | [] => .error "empty token list"
+  | [k] => stepScalar r k v
+  | k :: a :: rest => if k = "bind".toList then stepBindCell dl r a rest v else stepOther r k a rest v
+
+/-- one cell through `clean_text_values` and `process_row` (sheet_headers.py 164-180) -/
 def stepCell (dl : Str) (key : List (Str × List Str)) (r : PRow) (h v0 : Str) : Except String PRow :=
   let v := cleanCell v0
   if v.isEmpty then .error "whitespace-only cell" else
   if !refsSimple none v then .error "reference shape" else
   match lookup h key with
   | none => .error "cell under a column that is not in the header row"
-  | some [] => .error "empty token list"
-  | some [k] =>
-    let r := if k = "disabled".toList then r else { r with keys := r.keys + 1 }
-    if k = "type".toList then .ok { r with type := some v }
-    else if k = "name".toList then .ok { r with name := some v }
-    else if k = "trigger".toList then .ok { r with trigger := some v }
-    else if k = "parameters".toList then .ok { r with parameters := some v }
-    else if k = "disabled".toList then .ok { r with disabled := some v }
-    else if k = "default".toList then .ok { r with default_ := some v }
-    else if k = "choice_filter".toList then .ok { r with choiceFilter := true }
-    else if k = "label".toList then .ok { r with hasLabel := true }
-    else if k = "bind".toList || k = "control".toList then .error "plain bind/control column (F14 class)"
-    else .ok r
-  | some (k :: a :: rest) =>
-    let r := { r with keys := r.keys + 1 }
-    if k = "bind".toList then
-      let nv : Option BVal := match rest with
-        | [] => some (.s v)
-        | [l] => some (.d [(l, v)])
-        | _ => none
-      match nv with
-      | none => .error "bind cell nested deeper than bind::attr::lang"
-      | some nv =>
-        match setBind dl (r.bind.getD []) a nv with
-        | none => .error "bind leaf collision"
-        | some b => .ok { r with bind := some b }
-    else if k = "control".toList then
-      if !rest.isEmpty then .error "nested control cell"
-      else if a = "jr:count".toList then .ok { r with count := some v }
-      else if a = "appearance".toList then .ok { r with appearance := some v }
-      else .ok r
-    else if scalarSlots.contains k then .error "grouped header on a scalar column (F14 class)"
-    else if k = "label".toList then .ok { r with hasLabel := true }
-    else .ok r
+  | some toks => stepTokens dl r v toks
 
 def processRow (dl : Str) (key : List (Str × List Str)) : PRow → List (Str × Str) → Except String PRow
   | r, [] => .ok r
@@ -477,11 +488,13 @@ def instanceID (root : Str) : Elem :=
 /-! ## element → `<bind>` -/
 
 /-- `Question.__init__` merge / `Section.__init__`; an empty dict is never stored -/
+def rawBind (q : Q) : BindDict :=
+  match q.tt with
+  | some tt => dictUpdate (tt.map fun (k, v) => (k, BVal.s v)) (q.bind.getD [])
+  | none => q.bind.getD []
+
 def elemBind (q : Q) : Option BindDict :=
-  let b : BindDict := match q.tt with
-    | some tt => dictUpdate (tt.map fun (k, v) => (k, BVal.s v)) (q.bind.getD [])
-    | none => q.bind.getD []
-  if b.isEmpty then none else some b
+  if (rawBind q).isEmpty then none else some (rawBind q)
 
 def convertible (k : Str) : Bool := Pyxv.Gen.convertibleBindAttributes.any fun a => a.toList = k
 
@@ -516,6 +529,8 @@ def subst (root : Str) (tops : List Str) : Option Str → Str → Option Str
       else none
     else subst root tops (some (c :: acc)) cs
 
+def calcKey : Str := "calculate".toList
+
 /-- kwargs that `utils.node` never turns into attributes -/
 def blockedAttrs : List Str := ["tag".toList, "toParseString".toList]
 
@@ -523,7 +538,7 @@ def blockedAttrs : List Str := ["tag".toList, "toParseString".toList]
 def attrsOf (root : Str) (tops : List Str) (path : Str) (trigger : Bool) : BindDict → Option (List (Str × Str))
   | [] => some []
   | (k, v) :: rest =>
-    if trigger && k = "calculate".toList then attrsOf root tops path trigger rest
+    if trigger && k = calcKey then attrsOf root tops path trigger rest
     else
     match convVal path k v with
     | none => none
@@ -619,7 +634,7 @@ def value (root : Str) (tops : List Str) (path k : Str) (v : BVal) : Option Str 
 /-- source of attribute `k`: the row's own logic cell wins over the type table; a triggered
     question's `calculate` goes to a setvalue action, not to the bind -/
 def source (tt : List (Str × Str)) (logic : BindDict) (trigger : Bool) (k : Str) : Option BVal :=
-  if trigger && k = "calculate".toList then none
+  if trigger && k = calcKey then none
   else match lookup k logic with
     | some v => some v
     | none => (lookup k tt).map BVal.s
